@@ -1,1 +1,10 @@
-fn main() {}
+fn main() {
+    let args: Vec<String> = std::env::args().collect();
+    let prop = if args.len() > 2 && (args[1] == "replay" || args[1] == "fuzzbytes") { args[2].clone() } else { args.get(1).cloned().unwrap_or_default() };
+    if prop == "C04" {
+        vcore::runner::main_for(fam_cw3::tally::TallyFamily)
+    } else {
+        eprintln!("INCONCLUSIVE: fam_cw3 does not serve '{prop}' yet");
+        std::process::exit(2);
+    }
+}
